@@ -435,11 +435,11 @@ struct Driver
                     ++g_st.nextGoalNull;
                 if (drawn > 1 || (drawn == 1 && !st))
                     ++g_st.goalSkips;
+                if (watchdog)
+                    return fail("NextGoal:hang", "nextGoal(ptc) kept polling (8 evaluations of the termination condition) "
+                                                 "although the scripted condition says the goal is exhausted");
                 if (obs)
                 {
-                    if (watchdog)
-                        return fail("NextGoal:hang", "nextGoal(ptc) kept polling (8 evaluations of the termination condition) "
-                                                     "although the goal was exhausted");
                     if (st && !w.space->isLive(st))
                         return fail("NextGoal:dangling", "returned pointer is not an allocated state");
                     if (st && X(st, 1) != FLAG_OK)
@@ -532,6 +532,9 @@ struct Driver
 
 // ------------------------------------------------------------------ probe: fresh iterator
 // A planner that was never given a problem definition: its iterator reports zero consumed states.
+// poisoning must survive the optimiser: storage contents are dead to the compiler once a
+// constructor starts (lifetime DSE), so memset is reached through a volatile pointer
+static void *(*volatile g_poison)(void *, int, size_t) = memset;
 static int probe()
 {
     World w;
@@ -539,7 +542,7 @@ static int probe()
     for (int round = 0; round < 8; ++round)
     {
         void *mem = operator new(sizeof(TinyPlanner));
-        memset(mem, 0xCD - round, sizeof(TinyPlanner));
+        g_poison(mem, 0xCD - round, sizeof(TinyPlanner));
         TinyPlanner *p = new (mem) TinyPlanner(w.si);
         unsigned a = p->getPlannerInputStates().getSeenStartStatesCount();
         unsigned b = p->getPlannerInputStates().getSampledGoalsCount();
@@ -556,7 +559,7 @@ static int probe()
         // the same for a stand-alone iterator constructed for a planner
         auto pl = std::make_shared<TinyPlanner>(w.si);
         void *m2 = operator new(sizeof(ob::PlannerInputStates));
-        memset(m2, 0xCD - round, sizeof(ob::PlannerInputStates));
+        g_poison(m2, 0xCD - round, sizeof(ob::PlannerInputStates));
         auto *q = new (m2) ob::PlannerInputStates(pl.get());
         if (q->getSeenStartStatesCount() != 0 || q->getSampledGoalsCount() != 0)
         {
